@@ -1,0 +1,9 @@
+//go:build verif
+
+// Contracts for package link_solicit, checked by /verif (bfvc). Comment-only.
+package link_solicit
+
+//@ ifacegetters SolicitProtocol
+
+//@ func (*solicitProtocol).IsEquivalent
+//@   ensures ret ==> samegetters(d, other, SolicitProtocol)
